@@ -1110,3 +1110,35 @@ mod tests {
         ));
     }
 }
+
+/// Verification hooks (feature `verif`).
+#[cfg(feature = "verif")]
+impl MemoryStore {
+    /// Let `by` pass for everything stored so far: all expiry instants move into the past by `by`.
+    pub fn age_verif(&mut self, by: Duration) {
+        for record in self.records.values_mut() {
+            record.expires = record.expires.map(|expires| expires - by);
+        }
+        for providers in self.provider_keys.values_mut() {
+            for provider in providers.iter_mut() {
+                provider.expires -= by;
+            }
+        }
+    }
+
+    pub fn records_len_verif(&self) -> usize {
+        self.records.len()
+    }
+
+    pub fn provider_keys_len_verif(&self) -> usize {
+        self.provider_keys.len()
+    }
+
+    /// Stored providers of `key` in storage order: (provider, number of addresses).
+    pub fn providers_of_verif(&self, key: &Key) -> Vec<(PeerId, usize)> {
+        self.provider_keys
+            .get(key)
+            .map(|providers| providers.iter().map(|p| (p.provider, p.addresses.len())).collect())
+            .unwrap_or_default()
+    }
+}
